@@ -50,10 +50,12 @@ Mat(f) == f \o << >>
 
 \* -------------------------------------------------------------------- types
 \* RFC 6020 section 9: value spaces and lexical representations of the built-in types.
-Ty(b) == [b |-> b, fd |-> 0, en |-> << >>, base |-> ""]
-TyDec(fd) == [b |-> "decimal64", fd |-> fd, en |-> << >>, base |-> ""]
-TyEnum(en) == [b |-> "enumeration", fd |-> 0, en |-> en, base |-> ""]
-TyIdref(base) == [b |-> "identityref", fd |-> 0, en |-> << >>, base |-> base]
+Ty(b) == [b |-> b, fd |-> 0, en |-> << >>, base |-> "", pat |-> ""]
+TyDec(fd) == [b |-> "decimal64", fd |-> fd, en |-> << >>, base |-> "", pat |-> ""]
+TyEnum(en) == [b |-> "enumeration", fd |-> 0, en |-> en, base |-> "", pat |-> ""]
+TyIdref(base) == [b |-> "identityref", fd |-> 0, en |-> << >>, base |-> base, pat |-> ""]
+\* string restricted by the pattern [0-9]+ (9.4.6: the whole value must match)
+TyDigits == [b |-> "string", fd |-> 0, en |-> << >>, base |-> "", pat |-> "digits"]
 NoTy == Ty("none")
 
 SignedInts == {"int8", "int16", "int32", "int64"}
@@ -116,7 +118,7 @@ Accepts(ty, mod, s) ==
   LET yn(b_) == IF b_ THEN "yes" ELSE "no" IN
   CASE ty.b \in IntTypes -> yn(AcceptsInt(ty.b, s) /\ (ty.b \in SignedInts \/ ~IsNeg(s) \/ Strip0(Unsigned(s)) = "0"))
     [] ty.b = "decimal64" -> AcceptsDec(ty.fd, s)
-    [] ty.b = "string" -> "yes"
+    [] ty.b = "string" -> IF ty.pat = "digits" THEN yn(IsDigits(s)) ELSE "yes"
     [] ty.b = "boolean" -> yn(s \in {"true", "false"})
     [] ty.b = "empty" -> yn(s = "")
     [] ty.b = "enumeration" -> yn(\E i \in 1..Len(ty.en) : ty.en[i] = s)
@@ -285,6 +287,20 @@ JToksArr(a, i) == IF i > Len(a) THEN << >>
 JToksMem(m, i) == IF i > Len(m) THEN << >>
                   ELSE (IF i > 1 THEN <<Tk(",", "")>> ELSE << >>) \o <<Tk("str", m[i].k), Tk(":", "")>> \o JToks(m[i].v) \o JToksMem(m, i + 1)
 
+\* RFC 8259 section 6:  [ minus ] int [ frac ] [ exp ];  int = zero / ( digit1-9 *DIGIT )
+FirstOf(s, cs) == LET d == {i \in 1..Len(s) : Ch(s, i) \in cs} IN IF d = {} THEN 0 ELSE MinOf(d)
+JNumLex(s) ==
+  LET b0 == IF IsNeg(s) THEN Tail1(s) ELSE s
+      ei == FirstOf(b0, {"e", "E"})
+      mant == IF ei = 0 THEN b0 ELSE SubSeq(b0, 1, ei - 1)
+      ex == IF ei = 0 THEN "" ELSE SubSeq(b0, ei + 1, Len(b0))
+      exd == IF Len(ex) > 0 /\ Ch(ex, 1) \in {"+", "-"} THEN Tail1(ex) ELSE ex
+      p == IdxOf(mant, ".")
+      ip == IF p = 0 THEN mant ELSE SubSeq(mant, 1, p - 1)
+      fp == IF p = 0 THEN "" ELSE SubSeq(mant, p + 1, Len(mant))
+  IN /\ IsDigits(ip) /\ (Len(ip) = 1 \/ Ch(ip, 1) # "0")
+     /\ (p = 0 \/ IsDigits(fp))
+     /\ (ei = 0 \/ IsDigits(exd))
 \* ---- well-formedness recogniser / parser over token classes
 PBad == [ok |-> FALSE, v |-> JNull, i |-> 0]
 RECURSIVE PValue(_, _), PMembers(_, _, _), PElems(_, _, _)
@@ -292,7 +308,7 @@ PValue(ts, i) ==
   IF i > Len(ts) THEN PBad
   ELSE LET c == ts[i].c IN
        CASE c = "str" -> [ok |-> TRUE, v |-> JStr(ts[i].s), i |-> i + 1]
-         [] c = "num" -> [ok |-> TRUE, v |-> JNum(ts[i].s), i |-> i + 1]
+         [] c = "num" -> IF JNumLex(ts[i].s) THEN [ok |-> TRUE, v |-> JNum(ts[i].s), i |-> i + 1] ELSE PBad
          [] c = "true" -> [ok |-> TRUE, v |-> JTrue, i |-> i + 1]
          [] c = "false" -> [ok |-> TRUE, v |-> JFalse, i |-> i + 1]
          [] c = "null" -> [ok |-> TRUE, v |-> JNull, i |-> i + 1]
@@ -367,7 +383,6 @@ DecJScalar(rfc, csn, jv) ==
               ELSE [cls |-> "error", v |-> ""]))
   ELSE IF jv.t = "arr" THEN [cls |-> "open", v |-> ""]
   ELSE IF jv.t \in {"obj", "null"} THEN [cls |-> "error", v |-> ""]
-  ELSE IF jv.t = "num" /\ NumClass(jv.s) = "other" THEN [cls |-> "open", v |-> ""]
   ELSE LET v == NormId(csn, LitOf(jv))
            acc == Accepts(csn.ty, csn.mod, v)
        IN IF acc = "no" THEN [cls |-> "error", v |-> ""]
@@ -444,8 +459,9 @@ JLits(ts) == { [s |-> (IF ts[i].c \in {"str", "num"} THEN ts[i].s ELSE ts[i].c),
 \* ============================================================= XML documents
 \* element: [n, ns, text, q, kids, user];  q = the text read as a QName: [ns, rest] (ns = "" if the
 \* text has no prefix or the prefix is not declared in scope)
-XEl(n, ns, text, q, kids, user) == [n |-> n, ns |-> ns, text |-> text, q |-> q, kids |-> kids, user |-> user]
-NoQ == [ns |-> "", rest |-> ""]
+\* own: the prefix is declared on the element itself; decl: further xmlns:p declarations to write on the element
+XEl(n, ns, text, q, kids, user) == [n |-> n, ns |-> ns, text |-> text, q |-> q, kids |-> kids, user |-> user, decl |-> << >>]
+NoQ == [ns |-> "", rest |-> "", own |-> FALSE]
 \* tokens: start tag (name, namespace it is in, xmlns:p declarations), end tag, character data, raw
 XStart(n, ns, decl) == [c |-> "start", n |-> n, ns |-> ns, decl |-> decl, s |-> ""]
 XEnd(n) == [c |-> "end", n |-> n, ns |-> "", decl |-> << >>, s |-> ""]
@@ -456,7 +472,7 @@ XRaw(s) == [c |-> "raw", n |-> "", ns |-> "", decl |-> << >>, s |-> s]
 EncXLeaf(csn, v) ==
   LET ids == {id \in DerivedFrom(csn.ty.base) : IdVal(csn.mod, id) = v} IN
   IF csn.ty.b = "identityref" /\ ids # {}
-  THEN LET id == CHOOSE x \in ids : TRUE IN XEl(csn.n, NsOf(csn.mod), v, [ns |-> NsOf(id.mod), rest |-> id.name], << >>, csn.user)
+  THEN LET id == CHOOSE x \in ids : TRUE IN XEl(csn.n, NsOf(csn.mod), v, [ns |-> NsOf(id.mod), rest |-> id.name, own |-> TRUE], << >>, csn.user)
   ELSE XEl(csn.n, NsOf(csn.mod), v, NoQ, << >>, csn.user)
 RECURSIVE EncXKids(_, _, _), EncXNode(_, _)
 EncXNode(csn, t) ==      \* sequence of elements for one data node
@@ -471,16 +487,19 @@ EncX(root, t) == XEl("root", "", "", NoQ, EncXKids(root, t.kids, 1), FALSE)
 PrefixOf(s) == LET p == IdxOf(s, ":") IN IF p > 1 THEN SubSeq(s, 1, p - 1) ELSE ""
 RECURSIVE XToks(_), XToksSeq(_, _)
 XToks(e) ==
-  <<XStart(e.n, e.ns, IF e.q.ns # "" /\ PrefixOf(e.text) # "" THEN <<[p |-> PrefixOf(e.text), uri |-> e.q.ns]>> ELSE << >>)>>
+  <<XStart(e.n, e.ns, e.decl \o (IF e.q.ns # "" /\ PrefixOf(e.text) # "" THEN <<[p |-> PrefixOf(e.text), uri |-> e.q.ns]>> ELSE << >>))>>
   \o (IF e.text # "" THEN <<XText(e.text)>> ELSE << >>) \o XToksSeq(e.kids, 1) \o <<XEnd(e.n)>>
 XToksSeq(es, i) == IF i > Len(es) THEN << >> ELSE XToks(es[i]) \o XToksSeq(es, i + 1)
 
 \* ---- well-formedness recogniser / parser over tokens
 XBadR == [ok |-> FALSE, e |-> XEl("", "", "", NoQ, << >>, FALSE), i |-> 0]
-ResolveQ(text, scope) ==
+\* XML namespaces: the innermost declaration of the prefix is the one in scope (nown = how many of
+\* the declarations at the front of scope are the element's own)
+ResolveQ(text, scope, nown) ==
   LET p == PrefixOf(text)
       ds == {i \in 1..Len(scope) : scope[i].p = p}
-  IN IF p = "" \/ ds = {} THEN NoQ ELSE [ns |-> scope[MinOf(ds)].uri, rest |-> SubSeq(text, Len(p) + 2, Len(text))]
+  IN IF p = "" \/ ds = {} THEN NoQ
+     ELSE [ns |-> scope[MinOf(ds)].uri, rest |-> SubSeq(text, Len(p) + 2, Len(text)), own |-> MinOf(ds) <= nown]
 RECURSIVE XElemAt(_, _, _), XContent(_, _, _, _, _, _)
 XElemAt(ts, i, scope) ==
   IF i > Len(ts) \/ ts[i].c # "start" THEN XBadR ELSE XContent(ts, i + 1, ts[i], ts[i].decl \o scope, "", << >>)
@@ -490,7 +509,7 @@ XContent(ts, i, st, sc, text, kids) ==
          [] ts[i].c = "start" -> LET r == XElemAt(ts, i, sc) IN
                                  IF ~r.ok THEN XBadR ELSE XContent(ts, r.i, st, sc, text, Append(kids, r.e))
          [] ts[i].c = "end" -> IF ts[i].n = st.n
-                               THEN [ok |-> TRUE, e |-> XEl(st.n, st.ns, text, ResolveQ(text, sc), kids, TRUE), i |-> i + 1]
+                               THEN [ok |-> TRUE, e |-> XEl(st.n, st.ns, text, ResolveQ(text, sc, Len(st.decl)), kids, TRUE), i |-> i + 1]
                                ELSE XBadR
          [] OTHER -> XBadR
 \* ok: one well-formed root element; trailing: tokens follow it or character data precedes it
@@ -529,11 +548,14 @@ DecXScalar(csn, e) ==      \* [cls, v]
   ELSE IF csn.ty.b = "identityref" THEN
        LET byq == {id \in DerivedFrom(csn.ty.base) : e.q.ns = NsOf(id.mod) /\ e.q.rest = id.name}
            bare == {id \in DerivedFrom(csn.ty.base) : id.mod = csn.mod /\ id.name = e.text}
-       IN IF byq # {} THEN [cls |-> "tree", v |-> IdVal(csn.mod, CHOOSE id \in byq : TRUE)]
+       \* a prefix declared on the element itself is what RFC 6020 9.10.3 examples and this library's encoder
+       \* write; one inherited from an ancestor is as valid XML, but no encoding of a tree here contains it,
+       \* so a decoder that rejects it does not break the round trip
+       IN IF byq # {} THEN [cls |-> IF e.q.own THEN "tree" ELSE "either", v |-> IdVal(csn.mod, CHOOSE id \in byq : TRUE)]
           ELSE IF bare # {} /\ e.ns = NsOf(csn.mod) THEN [cls |-> "tree", v |-> e.text]
           \* a prefix that is undeclared or bound to another namespace, a bare name outside the leaf's namespace:
-          \* whether the text may still be read as the tree's "module:name" form is not judged
-          ELSE IF PrefixOf(e.text) # "" /\ \E id \in DerivedFrom(csn.ty.base) : IdVal(csn.mod, id) = e.text THEN [cls |-> "open", v |-> ""]
+          \* whether the text may still be read as the "module:name" form of RFC 7951 is not judged
+          ELSE IF PrefixOf(e.text) # "" /\ \E id \in DerivedFrom(csn.ty.base) : e.text \in {IdVal(csn.mod, id), IdQual(id)} THEN [cls |-> "open", v |-> ""]
           ELSE IF bare # {} THEN [cls |-> "open", v |-> ""]
           ELSE [cls |-> "error", v |-> ""]
   ELSE LET acc == Accepts(csn.ty, csn.mod, e.text) IN
@@ -609,8 +631,6 @@ LitOK(csn, v, lits) ==
      /\ \E id \in DerivedFrom(csn.ty.base) :
           /\ IdVal(csn.mod, id) = v
           /\ \E l \in lits : l.s = IdQual(id) \/ (l.ns = NsOf(id.mod) /\ l.rest = id.name)
-  \/ /\ csn.ty.b \in NumericTypes
-     /\ \E l \in lits : l.c = "num" /\ NumClass(l.s) = "other"
 RECURSIVE AlteredIn(_, _, _), AlteredKids(_, _, _, _)
 \* "" or the type of the first altered leaf
 AlteredKids(psn, kids, lits, i) ==
